@@ -12,6 +12,7 @@ from harness import build, gen
 from harness import refmodel as rm
 
 RULE = (
+    "A quarter of the ensemble cases use a hand-rotated orthonormal Hermitian identity-first basis (harness/covar.py). "
     "index_maps: every shape with 1..4 variables of 1..5 values (780 shapes) and every index of it, enumerated; oracle = "
     "numpy unravel_index / ravel_multi_index (row-major) plus both round trips.  multinomial / marginal / conditional: "
     "probability tensors stored verbatim in the case (1..4 variables, <= 120 entries, mostly non-square; entries drawn as "
@@ -723,6 +724,9 @@ def ensemble_case(draw, tier):
         "flat_call": draw(st.booleans()),
         "with_product": draw(st.integers(0, 2)) == 0,
     }
+    if draw(st.integers(0, 3)) == 0:
+        # the same operators over a hand-rotated (orthonormal, Hermitian, identity-first) basis: harness/covar.py
+        c["rot"] = draw(gen.raw(64))
     return c
 
 
@@ -763,6 +767,11 @@ def check_ensembles(case, ctx):
     d = gen.dim_of(shape)
     basis = gen.ref_basis(shape)
     c_sys = build.c_sys_for(shape)
+    if case.get("rot") is not None:
+        from harness import covar
+
+        c_sys, _o, basis = covar.rotated_env(shape, case["rot"])
+        ctx.label("basis:rotated")
     rho = gen.state_matrix(case["state"])
     ks1 = _kraus_sets(case["m1"], case["state"])
     ks2 = _kraus_sets(case["m2"], case["state"])
@@ -892,6 +901,8 @@ def check_ensembles(case, ctx):
 
         names_b = [10 + k for k in range(len(gen.SHAPES[shape]))]
         c_sys_b = build.c_sys_for(shape, names=names_b)
+        if case.get("rot") is not None:
+            c_sys_b = covar.rotated_env(shape, case["rot"], names_b)[0]
         state_b = build.make(c_sys_b, "state", np.real(rm.vec(basis, rho)))
         ens_b = compose_qoperations(_quara_mprocess(c_sys_b, basis, ks2, sh2), _quara_mprocess(c_sys_b, basis, ks1, sh1), state_b)
         if type(ens_b) is StateEnsemble and not ens_b.prob_dist.is_zero_dist and not pd1.is_zero_dist:
